@@ -280,3 +280,131 @@ pub fn presentation_validation(_cex: &Value) -> Result<String, String> {
     Ok(_) => Err("presentation validation battery: all expectations met".to_owned()),
   }
 }
+
+/// C07: claims round trip + consistency table through the public API (serialize_jwt -> toy-signed JWT -> verify_signature / validate)
+pub fn claims(cex: &Value) -> Result<String, String> {
+  let only: Option<String> = cex.get("only").and_then(Value::as_str).map(str::to_owned);
+  let r = no_panic(|| -> Vec<String> {
+    let mut log = Vec::new();
+    let validator = JwtCredentialValidator::with_signature_verifier(JwsVerifierFn::from(toy_verify));
+    let issuer = doc(ISSUER, &[(ISSUER, "#assert", MethodScope::assertion_method())]);
+    let kid = format!("{ISSUER}#assert");
+    let k = method_key(ISSUER, "#assert");
+    let full = serde_json::json!({
+      "@context": ["https://www.w3.org/2018/credentials/v1", "https://www.w3.org/2018/credentials/examples/v1"],
+      "id": "http://example.edu/credentials/3732",
+      "type": ["VerifiableCredential", "UniversityDegreeCredential"],
+      "issuer": {"id": ISSUER, "name": "Example University"},
+      "issuanceDate": "2010-01-01T19:23:24Z",
+      "expirationDate": "2020-01-01T19:23:24Z",
+      "credentialSubject": {"id": HOLDER, "degree": {"type": "BachelorDegree", "name": "Bachelor of Science and Arts"}},
+      "credentialStatus": {"id": "https://example.edu/status/24", "type": "CredentialStatusList2017"},
+      "credentialSchema": {"id": "https://example.org/examples/degree.json", "type": "JsonSchemaValidator2018"},
+      "refreshService": {"id": "https://example.edu/refresh/3732", "type": "ManualRefreshService2018"},
+      "termsOfUse": [{"type": "IssuerPolicy", "id": "http://example.com/policies/credential/4"}],
+      "evidence": [{"id": "https://example.edu/evidence/f2aeec97", "type": ["DocumentVerification"]}],
+      "nonTransferable": true,
+      "extra": {"a": [1, 2, 3]},
+      "proof": {"type": "X", "y": 1}
+    });
+    let optional = ["id", "expirationDate", "credentialStatus", "credentialSchema", "refreshService", "termsOfUse", "evidence", "nonTransferable", "extra", "proof"];
+    for mask in 0..(1u32 << optional.len()) {
+      // all single omissions, all-present, all-absent and a stride through the rest
+      if !(mask == 0 || mask.count_ones() == 1 || mask.count_ones() as usize >= optional.len() - 1 || mask % 37 == 0) {
+        continue;
+      }
+      let mut v = full.clone();
+      for (i, name) in optional.iter().enumerate() {
+        if mask & (1 << i) != 0 {
+          v.as_object_mut().unwrap().remove(*name);
+        }
+      }
+      for issuer_as_url in [false, true] {
+        for subject_id in [true, false] {
+          let mut v = v.clone();
+          if issuer_as_url {
+            v["issuer"] = serde_json::Value::String(ISSUER.into());
+          }
+          if !subject_id {
+            v["credentialSubject"].as_object_mut().unwrap().remove("id");
+          }
+          let c: Credential = match Credential::from_json_value(v.clone()) {
+            Ok(c) => c,
+            Err(e) => {
+              log.push(format!("[roundtrip] fixture rejected: {e}"));
+              continue;
+            }
+          };
+          let claims = c.serialize_jwt(None).unwrap();
+          let cv: serde_json::Value = serde_json::from_str(&claims).unwrap();
+          for dup in ["id", "issuer", "issuanceDate", "expirationDate"] {
+            if cv["vc"].get(dup).is_some() {
+              log.push(format!("[roundtrip] vc.{dup} duplicated inside vc"));
+            }
+          }
+          match validator.verify_signature::<_, Object>(&sign_jwt(&claims, Some(&kid), None, &k), &[issuer.clone()], &JwsVerificationOptions::default()) {
+            Ok(d) => {
+              if d.credential != c {
+                log.push(format!("[roundtrip] credential (omitted mask {mask:#b}, issuer url {issuer_as_url}, subject id {subject_id}) changes through its claims"));
+              }
+            }
+            Err(e) => log.push(format!("[roundtrip] own claims rejected: {e}")),
+          }
+        }
+      }
+    }
+    // consistency table
+    let c: Credential = Credential::from_json_value(full.clone()).unwrap();
+    let base: serde_json::Value = serde_json::from_str(&c.serialize_jwt(None).unwrap()).unwrap();
+    let accepts = |v: &serde_json::Value| validator.verify_signature::<_, Object>(&sign_jwt(&v.to_string(), Some(&kid), None, &k), &[issuer.clone()], &JwsVerificationOptions::default()).is_ok();
+    let cases: Vec<(&str, Box<dyn Fn(&mut serde_json::Value)>, bool)> = vec![
+      ("vc.issuer equal", Box::new(|v| v["vc"]["issuer"] = v["iss"].clone()), true),
+      ("vc.issuer different", Box::new(|v| v["vc"]["issuer"] = serde_json::json!(OTHER)), false),
+      ("vc.id equal", Box::new(|v| v["vc"]["id"] = v["jti"].clone()), true),
+      ("vc.id different", Box::new(|v| v["vc"]["id"] = serde_json::json!("http://example.edu/credentials/1")), false),
+      ("vc.id present, jti absent", Box::new(|v| { v["vc"]["id"] = v["jti"].clone(); v.as_object_mut().unwrap().remove("jti"); }), false),
+      ("vc.issuanceDate equal", Box::new(|v| v["vc"]["issuanceDate"] = serde_json::json!("2010-01-01T19:23:24Z")), true),
+      ("vc.issuanceDate different", Box::new(|v| v["vc"]["issuanceDate"] = serde_json::json!("2010-01-01T19:23:25Z")), false),
+      ("vc.expirationDate equal", Box::new(|v| v["vc"]["expirationDate"] = serde_json::json!("2020-01-01T19:23:24Z")), true),
+      ("vc.expirationDate different", Box::new(|v| v["vc"]["expirationDate"] = serde_json::json!("2020-01-01T19:23:25Z")), false),
+      ("vc.expirationDate earlier than exp", Box::new(|v| v["vc"]["expirationDate"] = serde_json::json!("2020-01-01T19:23:23Z")), false),
+      ("vc.expirationDate present, exp absent", Box::new(|v| { v["vc"]["expirationDate"] = serde_json::json!("2020-01-01T19:23:24Z"); v.as_object_mut().unwrap().remove("exp"); }), false),
+      ("vc.credentialSubject.id equal", Box::new(|v| v["vc"]["credentialSubject"]["id"] = v["sub"].clone()), true),
+      ("vc.credentialSubject.id different", Box::new(|v| v["vc"]["credentialSubject"]["id"] = serde_json::json!(OTHER)), false),
+      ("vc.credentialSubject.id present, sub absent", Box::new(|v| { v["vc"]["credentialSubject"]["id"] = v["sub"].clone(); v.as_object_mut().unwrap().remove("sub"); }), false),
+      ("iat instead of nbf", Box::new(|v| { let n = v["nbf"].clone(); v.as_object_mut().unwrap().remove("nbf"); v["iat"] = n; }), true),
+      ("neither nbf nor iat", Box::new(|v| { v.as_object_mut().unwrap().remove("nbf"); }), false),
+    ];
+    for (name, f, want) in &cases {
+      let mut v = base.clone();
+      f(&mut v);
+      if accepts(&v) != *want {
+        log.push(format!("[consistency] {name}: {}", if *want { "rejected" } else { "accepted" }));
+      }
+    }
+    for (name, field, val, want) in [
+      ("exp one past year 9999", "exp", 253402300800i64, false),
+      ("exp at the end of year 9999", "exp", 253402300799, true),
+      ("nbf one before year 0000", "nbf", -62167219201, false),
+      ("nbf at the start of year 0000", "nbf", -62167219200, true),
+    ] {
+      let mut v = base.clone();
+      v[field] = serde_json::json!(val);
+      if accepts(&v) != want {
+        log.push(format!("[dates] {name}: {}", if want { "rejected" } else { "accepted" }));
+      }
+    }
+    log
+  });
+  match r {
+    Err(msg) => Ok(format!("claims conversion panicked: {msg}")),
+    Ok(log) => {
+      let log: Vec<String> = log.into_iter().filter(|l| only.as_ref().map(|o| l.contains(o.as_str())).unwrap_or(true)).collect();
+      if log.is_empty() {
+        Err("claims battery: all expectations met".to_owned())
+      } else {
+        Ok(format!("{} deviations, e.g. {}", log.len(), log[..log.len().min(3)].join("; ")))
+      }
+    }
+  }
+}
